@@ -72,6 +72,15 @@ class RefHist:
         self.ref[("h2", "r")] = "t2"
         self.ref[("h2", "u")] = "tz"
         self.union.add(("h2", "u"))
+        # a 2-D array of references with two bound entries (copied as a whole by the copy operations)
+        self.RA2 = lab.array("RefArr2x2", [2, 2], (0, 1), self.R)
+        self.h["ra2"] = I.call(self.RA2, [], {"_buffer": A})
+        for idx in ((0, 0), (0, 1), (1, 0), (1, 1)):
+            self.ref[("ra2", idx)] = None
+        I.call(I.getattr(self.h["ra2"], "__setitem__"), [(0, 1), self.h["t1"]], {})
+        I.call(I.getattr(self.h["ra2"], "__setitem__"), [(1, 0), self.h["t2"]], {})
+        self.ref[("ra2", (0, 1))] = "t1"
+        self.ref[("ra2", (1, 0))] = "t2"
         self.UA = lab.array("URefArr", [2], (0,), self.U)
         self.h["rau"] = I.call(self.UA, [], {"_buffer": A})
         for k in range(2):
@@ -112,7 +121,7 @@ class RefHist:
                 buf, sp = self.slot(holder, key)
                 is_union = (holder, key) in self.union
                 w0 = self.word(sp)
-                label = f"{holder}.{key}" if not isinstance(key, int) else f"{holder}[{key}]"
+                label = f"{holder}.{key}" if isinstance(key, str) else f"{holder}[{key}]"
                 got = self.read(holder, key)
                 if tgt is None:
                     if w0 != Poly.const(NULLV):
@@ -310,27 +319,28 @@ class RefHist:
         return out
 
 
-def _copy_refarray(H, where):
+def _copy_refarray(H, where, which="ra"):
     """element-wise copy of an array of references: null entries stay null; bound entries are shared in the same
     buffer and duplicated in another one"""
     I = H.I
-    src = H.h["ra"]
+    src = H.h[which]
     buf = H.ow.buf("A" if where == "same" else "B")
     n0 = len(I.effects)
-    c = I.call(H.RA, [src], {"_buffer": buf})
-    name = f"ra_copy{len([k for k in H.h if k.startswith('ra_copy')])}"
+    c = I.call(H.RA if which == "ra" else H.RA2, [src], {"_buffer": buf})
+    name = f"{which}_copy{len([k for k in H.h if k.startswith(which + '_copy')])}"
     H.h[name] = c
     allocs = [e for e in I.effects[n0:] if e.kind == "alloc"]
     out = []
     new_objs = [e for e in allocs[1:] if e.buf is buf]
     k = 0
-    for i in range(3):
-        tgt = H.ref[("ra", i)]
+    keys = list(range(3)) if which == "ra" else [(0, 0), (0, 1), (1, 0), (1, 1)]
+    for i in keys:
+        tgt = H.ref[(which, i)]
         if tgt is None or where == "same":
             H.ref[(name, i)] = tgt
             continue
         if k >= len(new_objs):
-            raise _Bad(f"RefArr(ra, _buffer=B): the referent of item {i} was not duplicated in the copy's buffer")
+            raise _Bad(f"{which} copied into B: the referent of item {i} was not duplicated in the copy's buffer")
         H.nnew += 1
         nn = f"new{H.nnew}"
         H.h[nn] = I.call(I.getattr(H.T, "_from_buffer"), [buf, new_objs[k].pos], {})
@@ -346,6 +356,8 @@ def _copy_refarray(H, where):
 OPS = {
     "copy-refarray-same-buffer": lambda H: _copy_refarray(H, "same"),
     "copy-refarray-other-buffer": lambda H: _copy_refarray(H, "other"),
+    "copy-2d-refarray-same-buffer": lambda H: _copy_refarray(H, "same", "ra2"),
+    "copy-2d-refarray-other-buffer": lambda H: _copy_refarray(H, "other", "ra2"),
     "bind-existing": lambda H: H.bind("h", "r", "t1"),
     "bind-other-existing": lambda H: H.bind("h", "r", "t2"),
     "bind-value": lambda H: H.bind("h", "r", "value"),
@@ -429,7 +441,7 @@ def rv(cx):
         m.func(q)
     maxlen = 3 if cx.tier == "thorough" else 2
     hs = [h for n in range(1, maxlen + 1) for h in itertools.product(list(OPS), repeat=n)]
-    focus = {"C09": ("copy-holder-same-buffer", "copy-holder-other-buffer", "copy-refarray-same-buffer", "copy-refarray-other-buffer", "update-from-holder")}.get(cx.prop)
+    focus = {"C09": ("copy-holder-same-buffer", "copy-holder-other-buffer", "copy-refarray-same-buffer", "copy-refarray-other-buffer", "copy-2d-refarray-same-buffer", "copy-2d-refarray-other-buffer", "update-from-holder")}.get(cx.prop)
     if focus and cx.tier != "thorough":
         hs = [h for h in hs if h[-1] in focus]
         cx.partial = True
